@@ -329,6 +329,37 @@ def pattern_valid(owner, names):
   return len(names) > 2 and names[0] == "Rp" and names[-1] == "Rp" and all(n == "Rt" for n in names[1:-1])
 
 
+def h_push_children_rollback(pattern, owner, bad, why):
+  """a VALID pattern whose child number `bad` cannot be pushed (it has a parent already / belongs to another document): the call must
+  raise and leave the heap exactly as it was -- the children pushed before it are taken out again"""
+  names = [c.__name__ for c in pattern]
+
+  def run(ctx):
+    s = Setup(ctx, owner, with_root=True)
+    ctx.heapctx.stubs[model.ContentElement.root] = root_stub(s)
+    S = z3.Select
+    me, h0 = s.self_.term, s.h0
+    kids = [s.ref(f"c{j}", cls) for j, cls in enumerate(pattern)]
+    assume(SymBool(S(h0.arrays["_first_child"], me) == NULL))          # an empty container (otherwise the call is rejected before any push)
+    for j, k in enumerate(kids):
+      assume(SymBool(z3.And(k.term != NULL, k.term != me, s.root(me) != k.term)))
+      for k2 in kids[:j]:
+        assume(SymBool(k.term != k2.term))
+      if j == bad and why == "has-parent":
+        assume(SymBool(z3.And(S(h0.arrays["_parent"], k.term) != NULL, S(h0.arrays["_doc"], k.term) == S(h0.arrays["_doc"], me))))
+      elif j == bad:
+        assume(SymBool(z3.And(S(h0.arrays["_parent"], k.term) == NULL, S(h0.arrays["_doc"], k.term) != S(h0.arrays["_doc"], me))))
+      else:
+        assume(SymBool(z3.And(S(h0.arrays["_parent"], k.term) == NULL, S(h0.arrays["_doc"], k.term) == S(h0.arrays["_doc"], me))))
+    st, r = core.call_real(s.self_.push_children, list(kids), allowed=EXC)
+    prove(st == "raise", "a-list-with-an-unpushable-child-is-rejected")
+    s.unchanged("rejected-list-leaves-the-heap-unchanged(no-partial-pattern)")
+  return Harness(f"{owner.__name__}.push_children.rollback[{','.join(names)};child{bad}:{why}]", run,
+                 [M + owner.__name__ + ".push_children", M + "ContentElement.push_child", M + "ContentElement.remove_child"],
+                 "replayers.c15:heap_cex", {"op": "push_children_rollback", "cls": owner.__name__, "kinds": KIND_NAMES, "pattern": names, "bad": bad, "why": why},
+                 "a rejected push_children leaves no partial ruby / rtc pattern behind")
+
+
 def h_ruby_push_children(pattern, owner=None):
   """Ruby.push_children / Rtc.push_children with a list of individually pushable children of the given kinds"""
   owner = owner or model.Ruby
@@ -653,9 +684,9 @@ def frame_rule_harness():
     M + "ContentElement.push_children": {"push_child"},
     M + "ContentElement.remove_children": {"remove_child"},
     M + "ContentElement.remove": {"remove_child"},
-    M + "Ruby.push_children": {"push_child", "has_children"},
+    M + "Ruby.push_children": {"push_child", "has_children", "remove_child"},      # remove_child: roll-back of a partially applied list
     M + "Ruby.remove_children": {"remove_child"},
-    M + "Rtc.push_children": {"push_child"},
+    M + "Rtc.push_children": {"push_child", "remove_child"},
     M + "Rtc.remove_children": {"remove_child"},
     M + "ContentElement.copy_to": {"set_begin", "set_end", "set_id", "set_lang", "set_space", "set_style", "add_animation_step",
                                    "get_begin", "get_end", "get_id", "get_lang", "get_space", "iter_styles", "get_style",
@@ -664,7 +695,8 @@ def frame_rule_harness():
 
   read_only = {"has_children", "first_child", "last_child", "parent", "next_sibling", "previous_sibling", "get_doc", "is_attached",
                "get_region", "get_id", "get_begin", "get_end", "get_lang", "get_space", "get_style", "has_style", "iter_styles",
-               "iter_animation_steps", "dfs_iterator", "root"}
+               "iter_animation_steps", "dfs_iterator", "root",
+               "append"}      # list.append on a local list (no model class defines `append`): book-keeping of the roll-back in push_children
 
   def run(ctx):
     import os
@@ -708,6 +740,12 @@ def all_harnesses(tier):
     hs.append(h_ruby_push_children(pat))
   for pat in RTC_PATTERNS:
     hs.append(h_ruby_push_children(pat, model.Rtc))
+  for owner, pats in ((model.Ruby, [[model.Rb, model.Rt], [model.Rb, model.Rp, model.Rt, model.Rp], [model.Rbc, model.Rtc], [model.Rbc, model.Rtc, model.Rtc]]),
+                      (model.Rtc, [[model.Rt], [model.Rt, model.Rt], [model.Rp, model.Rt, model.Rp]])):
+    for pat in pats:
+      for bad in range(len(pat)):
+        for why in ("has-parent", "other-document"):
+          hs.append(h_push_children_rollback(pat, owner, bad, why))
   for label, cs in implementations("remove_child"):
     hs.append(h_remove_child(cs if len(cs) > 1 else cs[0], label))
   for label, cs in implementations("remove"):
